@@ -154,9 +154,7 @@ def run(ctx: Context, rep) -> None:
     funcs = selection_functions(ctx)
     edges = C.check_forwarding(ctx, rep, "C19.forward", funcs, OPTIONS,
                                EXCEPTIONS)
-    if rep.count("C19.forward") < 18 and not rep.violations:
-        raise AnalysisError(f"C19.forward: {rep.count('C19.forward')} "
-                            "instances, floor 18")
+    rep.floor("C19.forward", rep.count("C19.forward"), 18, "instances")
     # constructor stores the options
     init = ctx.fn(f"{C.RUST_GEN}.__init__")
     for p in OPTIONS:
@@ -168,6 +166,14 @@ def run(ctx: Context, rep) -> None:
                construct=f"self._{p} = {p}",
                message=f"constructor option `{p}` is kept for the epoch loop")
     # epoch: the native iterator is finite and re-created (C15.repeat)
+    from sa.rules.c15 import check_epoch
+    check_epoch(ctx, rep, "C19.epoch")
+    rep.rule(
+        "C19.epoch",
+        "every epoch of the Rust generator builds a fresh finite native "
+        "iterator from a freshly computed, complete shard path list "
+        "(list(as_numpy_common(..., repeat=False))) and releases it at the "
+        "end of the epoch; nothing one-shot is cached across epochs")
     rustrules.check_repeat_assert(ctx, rep, "C19.rust")
     rep.rule("C19.rust",
              "the native iterator refuses repeat=true, so each epoch is "
@@ -196,6 +202,11 @@ SELFTESTS = [
     dict(rule="C19.inf", name="rust-call-single-epoch", expect="fire", path=_DI,
          old="        yield from self._single_iter()\n        while self._repeat:\n            yield from self._single_iter()\n",
          new="        yield from self._single_iter()\n"),
+    dict(rule="C19.epoch", name="paths-cached-across-epochs", expect="fire", path=_DI,
+         edits=[dict(path=_DI, old="        self._rust_iter: _sedpack_rs.RustIter | None = None\n\n        self._dataset: DatasetIteration = dataset",
+                     new="        self._rust_iter: _sedpack_rs.RustIter | None = None\n        self._shard_paths = None\n\n        self._dataset: DatasetIteration = dataset"),
+                dict(path=_DI, old="            shard_paths: list[str] = list(\n                self._dataset.as_numpy_common(\n                    split=self._split,\n                    shards=self._shards,\n                    shard_filter=self._shard_filter,\n                    repeat=False,\n                    shuffle=self._shuffle,\n                ))\n",
+                     new="            if self._shard_paths is None:\n                self._shard_paths = self._dataset.as_numpy_common(\n                    split=self._split,\n                    shards=self._shards,\n                    shard_filter=self._shard_filter,\n                    repeat=False,\n                    shuffle=self._shuffle,\n                )\n            shard_paths: list[str] = list(self._shard_paths)\n")]),
     dict(rule="C19.forward", name="repeat-hardcoded", expect="fire", path=_DI,
          old="        shard_paths_iterator: Iterable[str] = self.as_numpy_common(\n            split=split,\n            shards=shards,\n            shard_filter=shard_filter,\n            repeat=repeat,\n            shuffle=shuffle,\n        )\n\n        # Decode the files.\n        supported_file_types",
          new="        shard_paths_iterator: Iterable[str] = self.as_numpy_common(\n            split=split,\n            shards=shards,\n            shard_filter=shard_filter,\n            repeat=True,\n            shuffle=shuffle,\n        )\n\n        # Decode the files.\n        supported_file_types"),
